@@ -8,3 +8,11 @@ package metrics
 func VerifBuildLabelValueKey(labels []string) string { return buildLabelValueKey(labels) }
 
 func (m *Metric) VerifIndex() map[string]*LabelValue { return m.labelValuesMap }
+
+// VerifResetData drops every label value of the metric (slice and index).
+func (m *Metric) VerifResetData() {
+	m.Lock()
+	defer m.Unlock()
+	m.LabelValues = make([]*LabelValue, 0)
+	m.labelValuesMap = make(map[string]*LabelValue)
+}
